@@ -713,3 +713,173 @@ def lemma_L5(prog, res):
             res.add("C05.open_err_implies_a_table_is_malformed", "holds" if okv else "violated",
                     "" if okv else f"minimal_parse fails although both tables are well-formed: {model_str(mdl, 24)}", mdl)
     res.add("L5.witness.ok_and_err_paths", "holds" if n_ok >= 4 and n_err >= 4 else "inconclusive", f"ok={n_ok} err={n_err}")
+
+
+# ---------------------------------------------------------------------------------------------------------
+# file-level lemmas with bounded section/program header tables (K entries): L6 (C20), L7 (C07), L8 (C05-H2/H3), L9 (C13 wiring)
+
+K_TABLE = 2
+
+
+def table_state(ctx, cls, with_sections, with_segments):
+    """shared symbolic file state: section table of 1..K entries at tab.shoff (or absent), program table of 1..K entries (or absent)"""
+    fl = ctx.env["file_len"]
+    ci = 0 if cls == "ELF32" else 1
+    st = {}
+    for (nm, present, es) in (("sh", with_sections, model.CLASS_SIZES["SectionHeader"][ci]), ("ph", with_segments, model.CLASS_SIZES["ProgramHeader"][ci])):
+        if not present:
+            st[nm] = None
+            continue
+        off = z3.BitVec(f"tab.{nm}off", 64)
+        n = z3.BitVec(f"tab.{nm}num", 64)
+        ctx.assume(z3.And(z3.UGE(n, bv(1)), z3.ULE(n, bv(K_TABLE))))
+        ctx.assume(z3.And(z3.ULE(off, fl), z3.ULE(n * es, fl - off), off != 0))
+        st[nm] = Slice(ctx.env["file"], off, n * es)
+    return st
+
+
+def mk_bytes_file(ctx, cls, st):
+    e = Opaque("endian", data="E")
+    c = Enum(cls, [], "Class")
+
+    def tab(sl):
+        if sl is None:
+            return Enum("None", [], "Option")
+        return Enum("Some", [Agg([e, c, sl, Agg([], "ZeroSized")], "ParsingTable")], "Option")
+    return Agg([mk_ehdr(cls), Slice(ctx.env["file"], bv(0), ctx.env["file_len"]), tab(st["sh"]), tab(st["ph"])], "ElfBytes")
+
+
+def mk_stream_file(ctx, cls, st):
+    e = Opaque("endian", data="E")
+    c = Enum(cls, [], "Class")
+
+    def vec(sl, ty):
+        if sl is None:
+            return model.Collected("empty", Slice(Buffer(bv(0), "zeros"), bv(0), bv(0)), None, None)
+        return model.Collected(ty, sl, c, e)
+    cr = model.mk_caching_reader(ctx)
+    return Agg([mk_ehdr(cls), vec(st["sh"], "SectionHeader"), vec(st["ph"], "ProgramHeader"), cr], "ElfStream")
+
+
+def run_file_method(prog, side, method, cls, with_sections, with_segments, fault_free=True, extra_args=None, tag=None, scope=None):
+    solver = new_solver()
+    stats = dict(queries=0, paths=0)
+    fn = prog.find(("ElfBytes" if side == "bytes" else "ElfStream", method))
+    if fn is None:
+        raise sym.Unsupported(f"no MIR body for {side} {method}")
+
+    def path(ctx):
+        model.reader_env(ctx, fault_free=fault_free)
+        st = table_state(ctx, cls, with_sections, with_segments)
+        obj = mk_bytes_file(ctx, cls, st) if side == "bytes" else mk_stream_file(ctx, cls, st)
+        ctx.env["obj"] = obj
+        ctx.env["tables"] = st
+        if scope is not None:
+            ctx.assume(scope(ctx, obj, st))
+        ex = sym.Exec(prog, ctx)
+        args = [Ref([obj], 0)] + (extra_args() if extra_args else [])
+        return ex.call_fn(fn, args)
+    paths = sym.explore(prog, path, solver, stats, tag=tag or (side[:2] + method[:6]), max_paths=6000)
+    return paths, solver, stats
+
+
+def no_compressed_sections(cls):
+    """scoping of the property's query-level clause: no section of the (bounded) table is flagged SHF_COMPRESSED"""
+    def scope(ctx, obj, st):
+        if st["sh"] is None:
+            return z3.BoolVal(True)
+        ci = 0 if cls == "ELF32" else 1
+        es = model.CLASS_SIZES["SectionHeader"][ci]
+        w = 64
+        f = model.F(f"SectionHeader.sh_flags@{'32' if ci == 0 else '64'}", model.BV64, z3.BitVecSort(w))
+        return z3.And([(f(st["sh"].file_pos() + bv(i * es)) & 0x800) == 0 for i in range(K_TABLE)])
+    return scope
+
+
+LOOPED = [
+    # (method, exact Ok-coincidence required by the property?)
+    ("symbol_table", True),
+    ("dynamic_symbol_table", True),
+    ("dynamic", False),
+    ("section_headers_with_strtab", False),
+]
+
+
+def pair_compare(res, name, sp, bp, exact, proj_s=None, proj_b=None):
+    solver = new_solver()
+    pairs = both = 0
+    for ps in sp:
+        for pb in bp:
+            pc = ps["pc"] + pb["pc"]
+            res.stats["queries"] += 1
+            if solver.check(*pc) != z3.sat:
+                continue
+            pairs += 1
+            if ps["status"] != "ok" or pb["status"] != "ok":
+                continue
+            vs, vb = ps["value"], pb["value"]
+            if is_ok(vb) and is_err(vs):
+                mdl = solver.model()
+                res.add(f"C07.slice_ok_implies_stream_ok({name})", "violated", model_str(mdl, 24), mdl)
+            elif is_ok(vs) and is_err(vb):
+                if exact:
+                    mdl = solver.model()
+                    res.add(f"C07.stream_ok_implies_slice_ok({name})", "violated", model_str(mdl, 24), mdl)
+            elif is_ok(vs) and is_ok(vb):
+                both += 1
+                a = proj_s(vs.f[0]) if proj_s else vs.f[0]
+                b = proj_b(vb.f[0]) if proj_b else vb.f[0]
+                okv, mdl = valid(res, solver, pc, equal_vals(a, b))
+                res.add(f"C07.same_content({name})", "holds" if okv else "violated",
+                        "" if okv else f"stream={a!r} slice={b!r} :: {model_str(mdl, 24)}", mdl)
+    bad = any(o["status"] == "violated" and f"({name})" in o["name"] for o in res.obligations)
+    res.add(f"C07.okness_coincides({name})", "violated" if bad else "holds", f"{len(sp)} stream paths x {len(bp)} slice paths, {pairs} joint, {both} both-Ok")
+    res.add(f"L7.witness.both_ok({name})", "holds" if both >= 1 else "inconclusive")
+
+
+def strtab_pair_stream(v):
+    # (&Vec<SectionHeader>, Option<StringTable>) -> Option<StringTable>
+    return v.f[1]
+
+
+def strtab_pair_bytes(v):
+    # (Option<SectionHeaderTable>, Option<StringTable>) -> Option<StringTable>
+    return v.f[1]
+
+
+def lemma_L7(prog, res, classes=("ELF64",)):
+    for (method, exact) in LOOPED:
+        for cls in classes:
+            for (ws, wp) in ((True, False), (False, True)) if method == "dynamic" else ((True, False),):
+                name = f"{method}[{cls},{'sections' if ws else 'segments only'}]"
+                try:
+                    sp, _, sst = run_file_method(prog, "stream", method, cls, ws, wp, scope=no_compressed_sections(cls))
+                    bp, _, bst = run_file_method(prog, "bytes", method, cls, ws, wp, scope=no_compressed_sections(cls))
+                    fp, fsol, fst = run_file_method(prog, "stream", method, cls, ws, wp, fault_free=False, tag="sf" + method[:5], scope=no_compressed_sections(cls))
+                except sym.Unsupported as u:
+                    res.add(f"L7.encode({name})", "inconclusive", str(u))
+                    continue
+                for st in (sst, bst, fst):
+                    res.stats["queries"] += st["queries"]
+                    res.stats["paths"] += st["paths"]
+                if method == "section_headers_with_strtab":
+                    pair_compare(res, name, sp, bp, exact, strtab_pair_stream, strtab_pair_bytes)
+                else:
+                    pair_compare(res, name, sp, bp, exact)
+                for p in sp + fp:
+                    if p["status"] != "ok":
+                        res.add(f"C08.no_panic({name})", "violated", f"{p['status']} decisions={p['decisions'][:30]}")
+                        continue
+                    for ev in p["events"]:
+                        if ev[0] == "alloc":
+                            okv, mdl = valid(res, fsol, p["pc"], z3.ULE(ev[1], p["env"]["stream_len"]))
+                            res.add(f"C08.alloc<=stream_len({name})", "holds" if okv else "violated", model_str(mdl), mdl)
+                    v = p["value"]
+                    ioerrs = io_err_events(p["events"])
+                    if ioerrs:
+                        res.add(f"C17.io_failure_gives_err({name})", "holds" if is_err(v) else "violated", "" if is_err(v) else f"Ok after {ioerrs}")
+                    if is_ok(v) or True:
+                        if check_cache_inv(res, fsol, p, f"C17.cache_inv_preserved({name})"):
+                            res.add(f"C17.cache_inv_preserved({name})", "holds")
+                res.add(f"C08.no_panic({name})", "violated" if any(o["status"] == "violated" and o["name"] == f"C08.no_panic({name})" for o in res.obligations) else "holds",
+                        f"{len(sp) + len(fp)} stream paths")
